@@ -13,6 +13,20 @@ use fidget_core::{
 use nalgebra::{Matrix4, Point3, Vector2, Vector3};
 use zerocopy::{FromBytes, Immutable, IntoBytes};
 
+#[cfg(feature = "verif-hooks")]
+use fidget_core::render::verif::VoxelDecision;
+
+/// Reports what the renderer decided for a tile to the monitor hook
+#[cfg(feature = "verif-hooks")]
+fn verif_decision(tile: Tile<3>, size: usize, decision: VoxelDecision) {
+    use fidget_core::render::verif::{SchedPoint, fire};
+    fire(SchedPoint::VoxelTileDecision {
+        corner: [tile.corner[0], tile.corner[1], tile.corner[2]],
+        size,
+        decision,
+    });
+}
+
 /// Image containing depth and normal at each pixel
 pub type Image = GenericImage<GeometryPixel, RenderSize>;
 
@@ -285,6 +299,8 @@ impl<F: Function> Worker<'_, F> {
             let i = self.tile_row_offset(tile, y);
             (0..tile_size).all(|x| self.out[i + x].depth >= fill_z)
         }) {
+            #[cfg(feature = "verif-hooks")]
+            verif_decision(tile, tile_size, VoxelDecision::Occluded);
             return false;
         }
 
@@ -314,8 +330,12 @@ impl<F: Function> Worker<'_, F> {
                     self.out[i + x].depth = self.out[i + x].depth.max(fill_z);
                 }
             }
+            #[cfg(feature = "verif-hooks")]
+            verif_decision(tile, tile_size, VoxelDecision::Full);
             return false; // completely full, stop rendering
         } else if i.lower() > 0.0 {
+            #[cfg(feature = "verif-hooks")]
+            verif_decision(tile, tile_size, VoxelDecision::Empty);
             return true; // complete empty, keep going
         }
 
@@ -333,6 +353,8 @@ impl<F: Function> Worker<'_, F> {
 
         // Recurse!
         if let Some(next_tile_size) = self.tile_sizes.get(depth + 1) {
+            #[cfg(feature = "verif-hooks")]
+            verif_decision(tile, tile_size, VoxelDecision::Recurse);
             let n = tile_size / next_tile_size;
 
             for j in 0..n {
@@ -350,6 +372,8 @@ impl<F: Function> Worker<'_, F> {
                 }
             }
         } else {
+            #[cfg(feature = "verif-hooks")]
+            verif_decision(tile, tile_size, VoxelDecision::Pixels);
             self.render_tile_pixels(sub_tape, tile_size, tile);
         };
         // TODO recycle something here?
